@@ -329,7 +329,7 @@ for v in ("fresh", "over"):
         bounds="8-entry tables; global and the slot's own mapping (or none), root inode and owner ids symbolic; mount-point key concrete (2)",
         functions=["Vfs::insert_mount_locked", "Vfs::convert_entry", "Vfs::get_effective_id_mapping", "remap_id", "HashMap<u64, Arc<MountPointData>>::{clone, get, insert}"],
         stubs=VFS_STUBS + MOUNT_STUB, assumptions=VFS_ASSUME, role="c14_insert_mount_" + v, unwindset=UW_PI)
-reg(VFS, "c07_allocate_idx", ["C07"], tier="quick", flavour="real", timeout=800, timeout_thorough=2400, support=VSUP, cost=3, mem=16,
+reg(VFS, "c07_allocate_idx", ["C07"], tier="thorough", flavour="real", timeout=800, timeout_thorough=2400, support=VSUP, cost=3, mem=16,
     what="Vfs::allocate_fs_idx as one step across the index wrap-around", bounds="full 256-entry table; allocator at 253; occupancy of slots 253,254,255,1,2,3,4 symbolic (2^7 patterns), slot 5 vacant; unwind 260",
     functions=["Vfs::allocate_fs_idx"], stubs=VFS_STUBS, assumptions=["allocator position concrete (253): a symbolic position ran out of memory at 16 GB"],
     role="c07_allocate_idx", unwindset=UW_PI)
@@ -359,6 +359,11 @@ reg(PTP, "c16_skip_to_cookie_chain", ["C16"], flavour="real", timeout=900, unwin
     functions=["PassthroughFs::skip_to_cookie"], assumptions=["getdents64 buffers come from the host kernel: record lengths are well-formed"], role="c16_skip")
 # c16_cookie_cache_step / c16_cache_cookie_records_last (HandleMap's HashMap<Handle,u64>) exist in the
 # harness file but are NOT registered: hashbrown insert/remove did not finish in 900 s (see DESIGN.md).
+
+
+# harness/real/pt__forget.rs (C08: PassthroughFs::forget_one as one step on a one-element InodeStore) exists but is NOT
+# registered: all three instances timed out at 800 s -- CBMC cannot establish that the BTreeMap has height 0 and unrolls the
+# internal-node paths (split, correct_childrens_parent_links) at every insert/search/remove. C08 stays not_applicable.
 
 
 # ============================================================================ transport IoBuffers (real overlay): C04 / C17
